@@ -34,12 +34,16 @@ CONSTANTS MaxRecs,                              \* statements X logs
           MoCommit, MoStop, MoLoop, MoRead,     \* "rlx" | "acq" | "rel" | "ar"
           MoInv, MoIsValid,                     \* ThreadContext::mark_invalid / is_valid (Y's context, read by the clean-up)
           MoFlushStore, MoFlushLoad,            \* the backend's store to the flush flag, the caller's load
+          MaxRemove,                            \* remove_logger_blocking() calls of X (0 or 1; configurations without Y)
+          MoHStore, MoHLoad,                    \* LoggerManager::_has_invalidated_loggers: remove_logger's store, the clean-up's load
+          MoRemStore, MoRemLoad,                \* the backend's store to the removal flag, the caller's load
           Export
-VARIABLES W, WY, R, FL,     \* histories: X's / Y's writer_pos (val = records committed), _is_worker_running (1 = running), the flush flag
+VARIABLES W, WY, R, FL, RB, \* histories: X's / Y's writer_pos (val = records committed), _is_worker_running (1 = running), the flush flag,
+                            \* the removal flag of remove_logger_blocking()
           clk, view,        \* thread -> vector clock; thread -> [object -> oldest readable index]
           st,               \* everything else (record, see Init)
           hist
-vars == <<W, WY, R, FL, clk, view, st, hist>>
+vars == <<W, WY, R, FL, RB, clk, view, st, hist>>
 T == {"X", "Y", "B"}
 Zero == [t \in T |-> 0]
 Join(a, b) == [t \in T |-> IF a[t] > b[t] THEN a[t] ELSE b[t]]
@@ -52,6 +56,7 @@ Tick(c, t) == [c EXCEPT ![t] = @ + 1]
 
 Init ==
   /\ W = <<Msg(0, Zero, Zero)>> /\ WY = <<Msg(0, Zero, Zero)>> /\ R = <<Msg(1, Zero, Zero)>> /\ FL = <<Msg(0, Zero, Zero)>>
+  /\ RB = <<Msg(0, Zero, Zero)>>
   /\ clk = [t \in T |-> Zero] /\ view = [t \in T |-> [o \in {"W", "R", "WY", "FL"} |-> 1]]
   /\ st = [xq |-> <<>>,            \* X's records in queue order: [k |-> "s" | "f", ts |-> call order]
            yq |-> <<>>,            \* Y's records (timestamps)
@@ -59,7 +64,8 @@ Init ==
            consumed |-> 0, proc |-> 0, consumedY |-> 0, procY |-> 0,     \* records read into the transit buffers / written
            yexited |-> FALSE, joined |-> FALSE, vrel |-> Zero, yremoved |-> FALSE,
            stopreq |-> FALSE, owedX |-> 0, owedY |-> 0, finished |-> FALSE, lost |-> FALSE,
-           inflush |-> FALSE, nflush |-> 0, wclk |-> Zero, flushbad |-> FALSE]
+           inflush |-> FALSE, nflush |-> 0, wclk |-> Zero, flushbad |-> FALSE,
+           inremove |-> FALSE, nremove |-> 0, hrel |-> Zero, removed |-> FALSE, dclk |-> Zero, removebad |-> FALSE]
   /\ hist = <<>>
 Step(who, act, arg) == hist' = IF Export THEN Append(hist, [t |-> who, a |-> act, arg |-> arg]) ELSE hist
 
@@ -75,18 +81,18 @@ XCommit(k) ==
   /\ W' = Append(W, Msg(Len(st.xq) + 1, IF IsRel(MoCommit) THEN c2 ELSE Zero, c2))
   /\ clk' = [clk EXCEPT !["X"] = c2] /\ view' = [view EXCEPT !["X"]["W"] = Len(W) + 1]
 XLog ==
-  /\ ~st.stopreq /\ ~st.inflush /\ NStmts(st.xq, Len(st.xq)) < MaxRecs
+  /\ ~st.stopreq /\ ~st.inflush /\ st.nremove = 0 /\ NStmts(st.xq, Len(st.xq)) < MaxRecs
   /\ XCommit("s")
   /\ st' = [st EXCEPT !.xq = Append(@, [k |-> "s", ts |-> st.gts + 1]), !.gts = @ + 1]
-  /\ Step("X", "log", <<>>) /\ UNCHANGED <<WY, R, FL>>
+  /\ Step("X", "log", <<>>) /\ UNCHANGED <<WY, R, FL, RB>>
 
 \* flush_log(): a fresh flag, the request through the queue; the caller then spins on the flag
 XFlushCall ==
-  /\ ~st.stopreq /\ ~st.inflush /\ st.nflush < MaxFlush
+  /\ ~st.stopreq /\ ~st.inflush /\ st.nremove = 0 /\ st.nflush < MaxFlush
   /\ XCommit("f")
   /\ FL' = <<Msg(0, Zero, Zero)>>
   /\ st' = [st EXCEPT !.xq = Append(@, [k |-> "f", ts |-> st.gts + 1]), !.gts = @ + 1, !.inflush = TRUE, !.nflush = @ + 1]
-  /\ Step("X", "flushcall", <<>>) /\ UNCHANGED <<WY, R>>
+  /\ Step("X", "flushcall", <<>>) /\ UNCHANGED <<WY, R, RB>>
 \* the load that ends the spin: reads a `true` message; C06: everything X logged before the call is written, and readable
 XFlushReturn(i) ==
   /\ st.inflush /\ i \in LoAt(FL, clk["X"], 1)..Len(FL) /\ FL[i].val = 1
@@ -95,7 +101,27 @@ XFlushReturn(i) ==
      /\ clk' = [clk EXCEPT !["X"] = c1]
      /\ st' = [st EXCEPT !.inflush = FALSE,
                          !.flushbad = @ \/ NStmts(st.xq, st.proc) < owed \/ ~Leq(st.wclk, c1)]
-  /\ Step("X", "flushret", <<>>) /\ UNCHANGED <<W, WY, R, FL, view>>
+  /\ Step("X", "flushret", <<>>) /\ UNCHANGED <<W, WY, R, FL, RB, view>>
+
+\* remove_logger_blocking(): the request through the queue (with the address of a fresh flag), then remove_logger (the logger's
+\* valid flag and the manager's _has_invalidated_loggers, stored with MoHStore), then the caller spins on the flag
+XRemoveCall ==
+  /\ MaxY = 0 /\ ~st.stopreq /\ ~st.inflush /\ st.nremove < MaxRemove
+  /\ LET c2 == Tick(clk["X"], "X")
+         c4 == Tick(Tick(c2, "X"), "X") IN
+     /\ W' = Append(W, Msg(Len(st.xq) + 1, IF IsRel(MoCommit) THEN c2 ELSE Zero, c2))
+     /\ clk' = [clk EXCEPT !["X"] = c4] /\ view' = [view EXCEPT !["X"]["W"] = Len(W) + 1]
+     /\ st' = [st EXCEPT !.xq = Append(@, [k |-> "r", ts |-> st.gts + 1]), !.gts = @ + 1, !.inremove = TRUE, !.nremove = @ + 1,
+                         !.hrel = IF IsRel(MoHStore) THEN c4 ELSE Zero]
+  /\ RB' = <<Msg(0, Zero, Zero)>>
+  /\ Step("X", "removecall", <<>>) /\ UNCHANGED <<WY, R, FL>>
+\* C17: the call returns only after the removal has completed - the logger is gone, its sink destroyed, and both ordered before the caller
+XRemoveReturn(i) ==
+  /\ st.inremove /\ i \in LoAt(RB, clk["X"], 1)..Len(RB) /\ RB[i].val = 1
+  /\ LET c1 == IF IsAcq(MoRemLoad) THEN Join(clk["X"], RB[i].rel) ELSE clk["X"] IN
+     /\ clk' = [clk EXCEPT !["X"] = c1]
+     /\ st' = [st EXCEPT !.inremove = FALSE, !.removebad = @ \/ ~st.removed \/ ~Leq(st.dclk, c1)]
+  /\ Step("X", "removeret", <<>>) /\ UNCHANGED <<W, WY, R, FL, RB, view>>
 
 \* Y logs, exits (its thread ends: the context is marked invalid), X joins it
 YLog ==
@@ -104,29 +130,29 @@ YLog ==
      /\ WY' = Append(WY, Msg(Len(st.yq) + 1, IF IsRel(MoCommit) THEN c2 ELSE Zero, c2))
      /\ clk' = [clk EXCEPT !["Y"] = c2] /\ view' = [view EXCEPT !["Y"]["WY"] = Len(WY) + 1]
   /\ st' = [st EXCEPT !.yq = Append(@, st.gts + 1), !.gts = @ + 1]
-  /\ Step("Y", "log", <<>>) /\ UNCHANGED <<W, R, FL>>
+  /\ Step("Y", "log", <<>>) /\ UNCHANGED <<W, R, FL, RB>>
 YExit ==
   /\ MaxY > 0 /\ ~st.yexited
   /\ LET c2 == Tick(clk["Y"], "Y") IN
      /\ clk' = [clk EXCEPT !["Y"] = c2]
      /\ st' = [st EXCEPT !.yexited = TRUE, !.vrel = IF IsRel(MoInv) THEN c2 ELSE Zero]
-  /\ Step("Y", "exit", <<>>) /\ UNCHANGED <<W, WY, R, FL, view>>
+  /\ Step("Y", "exit", <<>>) /\ UNCHANGED <<W, WY, R, FL, RB, view>>
 XJoin ==
   /\ st.yexited /\ ~st.joined /\ ~st.stopreq /\ ~st.inflush
   /\ clk' = [clk EXCEPT !["X"] = Join(@, clk["Y"])]
   /\ st' = [st EXCEPT !.joined = TRUE]
-  /\ Step("X", "join", <<>>) /\ UNCHANGED <<W, WY, R, FL, view>>
+  /\ Step("X", "join", <<>>) /\ UNCHANGED <<W, WY, R, FL, RB, view>>
 
 \* X requests the stop: the exchange on the running flag (a read-modify-write: reads the last message)
 XStop ==
-  /\ ~st.stopreq /\ ~st.inflush
+  /\ ~st.stopreq /\ ~st.inflush /\ ~st.inremove
   /\ LET last == R[Len(R)]
          c1 == IF IsAcq(MoStop) THEN Join(clk["X"], last.rel) ELSE clk["X"]
          c2 == Tick(c1, "X") IN
      /\ R' = Append(R, Msg(0, IF IsRel(MoStop) THEN Join(last.rel, c2) ELSE last.rel, c2))
      /\ clk' = [clk EXCEPT !["X"] = c2] /\ view' = [view EXCEPT !["X"]["R"] = Len(R) + 1]
   /\ st' = [st EXCEPT !.stopreq = TRUE, !.owedX = Len(st.xq), !.owedY = IF st.joined THEN Len(st.yq) ELSE 0]
-  /\ Step("X", "stop", <<>>) /\ UNCHANGED <<W, WY, FL>>
+  /\ Step("X", "stop", <<>>) /\ UNCHANGED <<W, WY, FL, RB>>
 
 \* B writes the pending records with index > px / > py up to cx / cy, at most `limit` of them, lowest timestamp first.
 \* Returns [px, py, clkB, wclk, fl]: fl = the flush flag's history after the stores made on the way.
@@ -135,6 +161,7 @@ Process(px, py, cx, cy, limit, cb, wc, fl) ==
   IF limit = 0 \/ (px = cx /\ py = cy) THEN [px |-> px, py |-> py, cb |-> cb, wc |-> wc, fl |-> fl]
   ELSE LET takeX == px < cx /\ (py = cy \/ st.xq[px + 1].ts < st.yq[py + 1]) IN
        IF ~takeX THEN Process(px, py + 1, cx, cy, limit - 1, Tick(cb, "B"), wc, fl)               \* a statement of Y: a sink write
+       ELSE IF st.xq[px + 1].k = "r" THEN Process(px + 1, py, cx, cy, limit - 1, cb, wc, fl)           \* a removal request: nothing to write
        ELSE IF st.xq[px + 1].k = "s"
             THEN LET c2 == Tick(cb, "B") IN Process(px + 1, py, cx, cy, limit - 1, c2, c2, fl)    \* a statement of X: a sink write
             ELSE LET c2 == Tick(cb, "B") IN                                                        \* a flush request: the flag store
@@ -158,19 +185,33 @@ BIter(ir, iw, iy) ==
             cleanup == (stop \/ idle) /\ st.yexited /\ ~st.yremoved
             c4 == IF cleanup /\ IsAcq(MoIsValid) THEN Join(p.cb, st.vrel) ELSE p.cb
             lo4 == LoAt(WY, c4, iyy)
-            iy2 == IF cleanup THEN lo4 ELSE 0 IN
+            iy2 == IF cleanup THEN lo4 ELSE 0
+            c4b == IF cleanup /\ IsAcq(MoRead) THEN Join(c4, WY[iy2].rel) ELSE c4
+            \* the logger clean-up (after the context clean-up): _has_invalidated_loggers [acquire: what remove_logger published], then
+            \* the emptiness check once more - that load of X's writer position reads iw again unless it has become too old
+            rem == (stop \/ idle) /\ st.inremove /\ ~st.removed
+            c5 == IF rem /\ IsAcq(MoHLoad) THEN Join(c4b, st.hrel) ELSE c4b
+            iw2 == IF rem THEN LoAt(W, c5, iw) ELSE 0
+            c6 == IF rem /\ IsAcq(MoRead) THEN Join(c5, W[iw2].rel) ELSE c5
+            gone == rem /\ W[iw2].val = cx                       \* nothing queued in that view: the logger is erased, its sink destroyed,
+            c7 == IF gone THEN Tick(c6, "B") ELSE c6               \* (the destructor: a plain access)
+            c8 == IF gone THEN Tick(c7, "B") ELSE c7 IN            \* and the caller's flag stored
         /\ iy \in loy..Len(WY) /\ (st.yremoved => iy = view["B"]["WY"])
-        /\ clk' = [clk EXCEPT !["B"] = IF cleanup /\ IsAcq(MoRead) THEN Join(c4, WY[iy2].rel) ELSE c4]
-        /\ view' = [view EXCEPT !["B"]["R"] = ir, !["B"]["W"] = iw, !["B"]["WY"] = IF cleanup THEN iy2 ELSE iyy]
+        /\ clk' = [clk EXCEPT !["B"] = c8]
+        /\ view' = [view EXCEPT !["B"]["R"] = ir, !["B"]["W"] = IF rem THEN iw2 ELSE iw, !["B"]["WY"] = IF cleanup THEN iy2 ELSE iyy]
         /\ FL' = p.fl
+        \* (the flag is known to the backend only if it has read the request: otherwise the logger goes and the caller is never told)
+        /\ RB' = IF gone /\ (\E i \in 1..cx : st.xq[i].k = "r") THEN Append(RB, Msg(1, IF IsRel(MoRemStore) THEN c8 ELSE Zero, c8)) ELSE RB
         /\ st' = [st EXCEPT !.consumed = cx, !.consumedY = cy, !.proc = p.px, !.procY = p.py, !.wclk = p.wc,
                             !.yremoved = @ \/ (cleanup /\ WY[iy2].val = cy),
+                            !.removed = @ \/ gone, !.dclk = IF gone THEN c7 ELSE @,
                             !.finished = stop,
                             !.lost = stop /\ (p.px < st.owedX \/ p.py < st.owedY)]
-        /\ Step("B", "iter", <<ir, iw, iyy, iy2, IF st.yremoved THEN 1 ELSE 0>>)
+        /\ Step("B", "iter", <<ir, iw, iyy, iy2, IF st.yremoved THEN 1 ELSE 0, iw2>>)
   /\ UNCHANGED <<W, WY, R>>
 
 Next == XLog \/ XStop \/ XFlushCall \/ (\E i \in 1..Len(FL) : XFlushReturn(i)) \/ YLog \/ YExit \/ XJoin
+        \/ XRemoveCall \/ (\E i \in 1..Len(RB) : XRemoveReturn(i))
         \/ (\E ir \in 1..Len(R), iw \in 1..Len(W), iy \in 1..Len(WY) : BIter(ir, iw, iy))
 Spec == Init /\ [][Next]_vars
 
@@ -178,8 +219,10 @@ Spec == Init /\ [][Next]_vars
 NoLoss == ~st.lost
 \* C06: flush_log() returns only when the caller's earlier statements are written, and ordered before the caller
 FlushOK == ~st.flushbad
+\* C17: remove_logger_blocking() returns only after the removal has completed (logger erased, sink destroyed, ordered before the caller)
+RemoveOK == ~st.removebad
 TypeOK == /\ st.proc <= st.consumed /\ st.consumed <= Len(st.xq) /\ st.procY <= st.consumedY /\ st.consumedY <= Len(st.yq)
           /\ (st.finished => st.stopreq) /\ (st.joined => st.yexited) /\ st.owedY <= Len(st.yq)
-StateView == <<W, WY, R, FL, clk, view, st>>
+StateView == <<W, WY, R, FL, RB, clk, view, st>>
 ExportA == Export => PrintT("BEH " \o ToJson(hist'))
 =============================================================================
